@@ -950,7 +950,7 @@ def check(tier, seed):
                    big_ok, big_detail)
 
     # small scope, exhaustive: EVERY way of cutting a short stream into reads (implementation side only)
-    small = b'[a]\n\ndebug x\r\nb c\nd'[: (14 if quick else 18)]
+    small = b'[a]\n\ndebug x\r\nb c\nd'[: (14 if quick else 16)]
     want_small = py_commands(small)
     ex_bad, ex_n = [], 0
     for mask in range(1 << (len(small) - 1)):
